@@ -490,6 +490,85 @@ def work_twins(payload, skip, report):
     return acc
 
 
+# --- what was done on the context before (parse() in each of its expansion modes, calls that fail) leaves nothing behind ---
+
+PRIOR_TEXT = "p {{u|<nowiki>q</nowiki>}} <nowiki>r</nowiki> {{s}}"
+PRIORS = ["none", "parse", "parse_additional_empty", "parse_additional_u", "parse_pre_expand", "parse_expand_all",
+          "parse_do_not_pre_expand_empty", "parse_hook_raises", "expand_hook_raises", "expand_pre_expand", "node_to_wikitext"]
+PRIOR_PAGES = ["a {{w|<nowiki>x|[[y]]</nowiki>}} b {{u|1}} c <nowiki>''z''</nowiki> d", "{{u|<nowiki>k</nowiki>}}", "<nowiki>{{u|n}}</nowiki> {{u|m}}",
+               "{{s}} <nowiki/> {{u|<nowiki />}}", "x <nowiki>; y</nowiki>\n<nowiki>----</nowiki>"]
+
+
+def do_prior(ctx, prior):
+    def boom(name, args):
+        raise RuntimeError("hook fails")
+    try:
+        if prior == "parse":
+            ctx.parse(PRIOR_TEXT)
+        elif prior == "parse_additional_empty":
+            ctx.parse(PRIOR_TEXT, additional_expand=set())
+        elif prior == "parse_additional_u":
+            ctx.parse(PRIOR_TEXT, additional_expand={"u"})
+        elif prior == "parse_pre_expand":
+            ctx.parse(PRIOR_TEXT, pre_expand=True)
+        elif prior == "parse_expand_all":
+            ctx.parse(PRIOR_TEXT, expand_all=True)
+        elif prior == "parse_do_not_pre_expand_empty":
+            ctx.parse(PRIOR_TEXT, pre_expand=True, do_not_pre_expand=set())
+        elif prior == "parse_hook_raises":
+            ctx.parse(PRIOR_TEXT, expand_all=True, template_fn=boom)
+        elif prior == "expand_hook_raises":
+            ctx.expand(PRIOR_TEXT, template_fn=boom)
+        elif prior == "expand_pre_expand":
+            ctx.expand(PRIOR_TEXT, pre_expand=True)
+        elif prior == "node_to_wikitext":
+            ctx.node_to_wikitext(ctx.parse(PRIOR_TEXT))
+    except RuntimeError:
+        pass
+
+
+def work_prior(payload, skip, report):
+    """expand() of a page with quoted text after each earlier call of a small menu, on the same page and on the next one:
+    the result is the one the call gives with nothing before it."""
+    acc = Acc(PROP)
+    ctx = make_ctx()
+    i = 0
+    for text in PRIOR_PAGES:
+        for pre, te, pf in itertools.product((False, True), (None, [], ["u"]), (False, True)):
+            kw = dict(pre_expand=pre, templates_to_expand=None if te is None else set(te), expand_parserfns=pf)
+            ctx.start_page("Tt")
+            base = ctx.expand(text, **kw)
+            for prior in PRIORS:
+                for newpage in (False, True):
+                    if prior.endswith("_hook_raises") and not newpage:
+                        # a hook that raises is outside C13's quantifier (hooks return None or a string); what the page keeps
+                        # of the interrupted call (its expansion path) is only required to be gone on the next page
+                        continue
+                    report(i)
+                    i += 1
+                    case = {"page": text, "config": {"pre_expand": pre, "templates_to_expand": te, "expand_parserfns": pf,
+                                                     "before": prior, "new_page_between": newpage}}
+                    acc.case()
+                    acc.distinct("configs", ("prior", text, pre, te, pf, prior, newpage))
+                    ctx.start_page("Tt")
+                    try:
+                        do_prior(ctx, prior)
+                        if newpage:
+                            ctx.start_page("Tt")
+                        got = ctx.expand(text, **kw)
+                    except Exception as e:
+                        acc.violation("no_exception", case, type(e).__name__ + ": " + str(e)[:100], "returns")
+                        continue
+                    if got != base:
+                        acc.violation("same_result_whatever_was_called_before", case, got, base)
+                    if any(0x10203E <= ord(c) <= 0x10FFFD for c in got):
+                        acc.violation("no_placeholder_character_in_result", case, got, base)
+                    if i % 97 == 0:
+                        acc.sample(case)
+    close_ctx(ctx)
+    return acc
+
+
 # --- the pipe spelling of a parser function ({{#if|c|a|b}}) is the colon spelling ({{#if:c|a|b}}) ------------------
 PIPE_FNS = [("#if", 3), ("#ifeq", 4), ("#switch", 3), ("#if", 1)]     # (only names with '#' have the pipe spelling)
 PIPE_ARGS = ["{{s}}", "{{u|a}}", "x", "{{w|{{s}}}}", ""]
@@ -595,6 +674,8 @@ def main(run):
         run.acc.merge(acc)
     for cid, acc, hung in run_chunks(work_pipe, [("pipe",)], nproc=1, case_timeout=60):
         run.acc.merge(acc)
+    for cid, acc, hung in run_chunks(work_prior, [("prior",)], nproc=1, case_timeout=60):
+        run.acc.merge(acc)
     cov = {
         "distinct_nontrivial": len(run.acc.sets.get("configs", ())),
         "pages": len(pages(run.tier)),
@@ -611,6 +692,7 @@ def main(run):
         "computed names: %d pages whose call name is produced by another call (8 name shapes, three of them with a substitution modifier or a <noinclude/> separator, x 5 argument lists x 7 selections x pre_expand x hooks) against a 30-line reference written for that family" % (len(NAME_PARTS) * len(NAME_ARGS) * len(NAME_SETS) * 4),
         "escaped twins: every sequence of 2..3 forms out of {live, <nowiki/> after the first brace, <nowiki/> before the last brace} of one construct (call, parameter, link) on one page, in one text and as successive expand() calls, x selection x hooks",
         "pipe spelling of parser functions: #if / #ifeq / #switch with every argument vector over 5 argument forms, compared with the colon spelling under every selection x expand_parserfns x hooks (differential)",
+        "earlier calls: %d pages with quoted text x 12 configurations, each expanded after every one of %d earlier calls (parse() in each expansion mode, with empty selection sets, calls whose hook raises, node_to_wikitext) on the same page and on the next page, compared with the call made with nothing before it" % (len(PRIOR_PAGES), len(PRIORS)),
         "expand_invoke: a dedicated slice (5 pages with #invoke in bodies / arguments / siblings x switch x pre_expand x hook x repeated calls) with hand-written expectations",
     ]
     return run.finish(cov, assumptions, replay_fn=replay)
